@@ -511,15 +511,15 @@ impl Check for ComplexTwin {
         "complex-vs-real-twin"
     }
     fn rule(&self) -> String {
-        "complex problems y' = i w y, y' = (a+ib) y and y' = y x 4 initial states (generic, 45 degrees, purely imaginary, amplitude 57) x 7 solvers x tolerances (Euler: steps), each solved as a complex scalar and as the equivalent real 2x2 system; both must satisfy the global bound and the complex error may not exceed 4x the real one; signature = (solver, problem, tolerance)".into()
+        "complex problems y' = i w y, y' = (a+ib) y, y' = y and y' = -y x 4 initial states (generic, 45 degrees, purely imaginary, amplitude 57) x 7 solvers x tolerances (Euler: steps), each solved as a complex scalar and as the equivalent real 2x2 system; both must satisfy the global bound and the complex error may not exceed 4x the real one; signature = (solver, problem, tolerance)".into()
     }
     fn points(&self, t: Tier) -> Vec<CplxPt> {
         let mut v = vec![];
         for &solver in &ALL_SOLVERS {
-            for which in 0..3 {
+            for which in 0..4 {
                 for &tol in &t.pick(vec![1e-4, 1e-8], vec![1e-3, 1e-5, 1e-7, 1e-9]) {
                     for z0 in 0..4 {
-                        if which == 2 && z0 == 0 {
+                        if which >= 2 && z0 == 0 {
                             continue;
                         }
                         v.push(CplxPt { solver, which, tol, z0 });
@@ -531,7 +531,7 @@ impl Check for ComplexTwin {
     }
     fn run(&self, p: &CplxPt) -> Outcome {
         let mut o = Outcome::new();
-        let lam = [C64::new(0.0, 1.5), C64::new(-0.4, 2.0), C64::new(1.0, 0.0)][p.which];
+        let lam = [C64::new(0.0, 1.5), C64::new(-0.4, 2.0), C64::new(1.0, 0.0), C64::new(-1.0, 0.0)][p.which];
         let l = lam.norm();
         let (t0, t1) = (0.3, 0.3 + 2.0 / l);
         let cfg = if p.solver == Solver::Euler {
@@ -567,7 +567,10 @@ impl Check for ComplexTwin {
             if !(ec <= bound) {
                 o.viol(&subj, "complex-global-error-within-bound", format!("{:?}: complex error {:e}, bound {:e} (real twin error {:e})", p, ec, bound, er));
             }
-            if end_name(&or) == "Done" && !(ec <= 4.0 * er + 64.0 * EPS * oc.items.len() as f64 + 0.01 * bound) {
+            // (the slack is 1% of the NON-cumulative bound K G tol - the BDF bound grows with the number of steps and 1% of it
+            // would hide a complex run that is hundreds of times less accurate than its real twin)
+            let slack = if p.solver == Solver::Euler { 0.01 * bound } else { 0.01 * K * g * p.tol };
+            if end_name(&or) == "Done" && !(ec <= 4.0 * er + 64.0 * EPS * oc.items.len() as f64 * amp.max(1.0) + slack) {
                 o.viol(&subj, "complex-as-accurate-as-real-twin", format!("{:?}: complex error {:e} vs real twin {:e}", p, ec, er));
             }
             if oc.items.last().map(|x| x.0.to_bits()) != Some(t1.to_bits()) && p.solver != Solver::Euler {
